@@ -1453,7 +1453,7 @@ fn gen_c07(o: &mut Out, r: &mut Rng, d: &GDict, tier: &str) {
 /// C08 (cuts = false) and C09 (cuts = true): the per-connection loop of the server on scripted streams
 fn gen_c08(o: &mut Out, r: &mut Rng, d: &GDict, tier: &str, cuts: bool) {
     let thorough = tier == "thorough";
-    let n_corpus = if cuts { if thorough { 60 } else { 10 } } else if thorough { 300 } else { 50 };
+    let n_corpus = if cuts { if thorough { 250 } else { 10 } } else if thorough { 1500 } else { 50 };
     for ci in 0..n_corpus {
         let nreq = 1 + r.below(if cuts { 4 } else { 8 }) as usize;
         let reqs: Vec<GM> = (0..nreq).map(|_| if ci % 3 == 0 { small_messages(r, d)[r.below(4) as usize].clone() } else { message(r, d, 3, 2) }).collect();
@@ -1479,7 +1479,7 @@ fn gen_c08(o: &mut Out, r: &mut Rng, d: &GDict, tier: &str, cuts: bool) {
             // all good: whole delivery (baseline), dribble, random segmentation x random partial writes
             let variants = if thorough { 30 } else { 10 };
             for v in 0..variants {
-                o.case(&format!("serve good reqlens={} anslens={}", rl.join(","), al.join(",")));
+                o.case(&format!("serve good corpus={} reqlens={} anslens={}", ci, rl.join(","), al.join(",")));
                 setup(o, r);
                 let rd = match v {
                     0 => format!("d:{}", hex(&stream)),
